@@ -229,6 +229,9 @@ const LARGE_VIEWS: [usize; 20] = [0, 1, 2, 3, 4, 5, 6, 7, 10, 11, 12, 14, 15, 16
 /// the 25-view table): driven at `T`, compared at the steps `when` selects with the C11 reference
 /// model restarted on the last N + 400 inputs (windowed stage, smoother and the Fisher recursion's
 /// factor 1/2 have all faded by then), in units of the width of the documented range
+/// flat clause at f32 with windows of 400..1024: the views the clause names whose update does not cost O(N^2)
+const LARGE32_VIEWS: [usize; 10] = [0, 5, 6, 10, 11, 15, 16, 20, 20, 20];
+
 fn host_trial<T: Scalar>(host: crate::dynview::MaK, n: usize, ma: crate::oracle::ehlers::RefMa, xs: &[f64], clause: &'static str, tol: f64, when: impl Fn(usize) -> bool, out: &mut TrialOut) {
     use crate::dynview::MaK;
     use crate::oracle::ehlers::{self as oe, RefMa};
@@ -440,7 +443,7 @@ fn drift<T: Scalar>(v: &V, xs: &[f64], out: &mut TrialOut) {
     out.maxi("longest_stream", xs.len() as f64);
 }
 
-fn flat<T: Scalar>(v: &V, prefix: &[f64], c: f64, flat_len: usize, out: &mut TrialOut) {
+fn flat<T: Scalar>(v: &V, prefix: &[f64], c: f64, flat_len: usize, first_read: usize, out: &mut TrialOut) {
     // the statement's 1e-4 carries no scalar qualifier: it is applied as written to the views the flat
     // clause names; for the others (whose flat-window answer is the reference's decaying transient)
     // f32 gets the only f32 figure the statement gives
@@ -462,7 +465,7 @@ fn flat<T: Scalar>(v: &V, prefix: &[f64], c: f64, flat_len: usize, out: &mut Tri
         // long flat stretches are sampled (every 41st step and the last five), short ones checked
         // at every step
         let sampled = flat_len <= 200 || (t.wrapping_sub(prefix.len())) % 41 == 0 || t + 5 >= xs.len();
-        let checked = t >= prefix.len() + n && sampled;
+        let checked = t >= prefix.len() + n.max(first_read) && sampled;
         let Ok(got) = guarded(|| {
             inst.update(T::of(xs[t]));
             if checked || !read_only_where_checked {
@@ -495,13 +498,39 @@ impl Monitor for C16 {
         "C16"
     }
     fn plan(&self, cfg: &Cfg) -> u64 {
-        (25 * ns(cfg).len()) as u64 * cfg.tier.pick(6, 48) + LARGE_VIEWS.len() as u64 * cfg.tier.pick(1, 12) + 48 * cfg.tier.pick(1, 12)
+        (25 * ns(cfg).len()) as u64 * cfg.tier.pick(6, 48) + LARGE_VIEWS.len() as u64 * cfg.tier.pick(1, 12) + 48 * cfg.tier.pick(1, 12) + LARGE32_VIEWS.len() as u64 * cfg.tier.pick(1, 12)
     }
     fn trial(&self, cfg: &Cfg, idx: u64, out: &mut TrialOut) {
         let nl = ns(cfg);
         let mut rng = Rng::for_trial(cfg.seed, "C16", idx);
         let main = (25 * nl.len()) as u64 * cfg.tier.pick(6, 48);
         let large = LARGE_VIEWS.len() as u64 * cfg.tier.pick(1, 12);
+        let hosts = 48 * cfg.tier.pick(1, 12);
+        if idx >= main + large + hosts {
+            // large windows at f32, flat clause: a volatile stretch of several windows, then 4N..10N
+            // copies of a value with a full mantissa (a recursion whose state is rounded to a grid as
+            // coarse as ulp(level) stops decaying inside a dead band that widens with N^2)
+            let j = idx - main - large - hosts;
+            let vi = LARGE32_VIEWS[(j % LARGE32_VIEWS.len() as u64) as usize];
+            let n = if matches!(vi, 16 | 20) { *rng.pick(&[520usize, 800, 1024]) } else { *rng.pick(&[400usize, 520, 1024]) };
+            let v = view(vi, n, &mut rng);
+            let plen = rng.usize(2 * n + 5, 4 * n);
+            let prefix: Vec<f64> = three_decades(plen, rng.coin(), &mut rng).iter().map(|x| (*x as f32) as f64).collect();
+            // (the recursive ones are held near the top of the range: a dead band is a fraction of the held level)
+            let c = (if v.recursive { *rng.pick(&[977.77, 823.45, 612.345]) } else { *rng.pick(&[123.456, 1000.0 / 3.0, 0.1, 7.3, 977.77]) } as f32) as f64;
+            let flat_len = if v.recursive { rng.usize(8 * n + 200, 10 * n) } else { rng.usize(4 * n + 200, 6 * n) };
+            out.key(mix(hash_str(&format!("large32{:?}{}", v.kind, flat_len)), gen::hash_f64s(&prefix[prefix.len() - 64..])));
+            out.count("large_window_flat_trials_at_f32", 1);
+            if j % 4 == 0 {
+                out.sample(format!("flat: {} at f32 after a three-decade prefix of {} values, then {} x {:?}", Spec::leaf(v.kind).show(), plen, flat_len, c));
+            }
+            // (8N..10N identical values, read from the 8N-th on, for the recursive ones: the error an f32 recursion with
+            // a time constant of N/2 steps has gathered over the volatile stretch - up to 6e-3 of the level
+            // at N = 1024 on the unchanged code, inside the 1e-2 of the drift clause - has not decayed
+            // before that)
+            flat::<f32>(&v, &prefix, c, flat_len, if v.recursive { 8 * n - 40 } else { 0 }, out);
+            return;
+        }
         if idx >= main + large {
             // the two views that take a moving average: 2 hosts x 3 smoothers x (drift, flat x 3) x (f64, f32)
             use crate::dynview::MaK;
@@ -644,9 +673,9 @@ impl Monitor for C16 {
             }
             if f32_run {
                 let p32: Vec<f64> = prefix.iter().map(|x| (*x as f32) as f64).collect();
-                flat::<f32>(&v, &p32, (c as f32) as f64, flat_len, out)
+                flat::<f32>(&v, &p32, (c as f32) as f64, flat_len, 0, out)
             } else {
-                flat::<f64>(&v, &prefix, c, flat_len, out)
+                flat::<f64>(&v, &prefix, c, flat_len, 0, out)
             }
         }
     }
@@ -669,7 +698,7 @@ impl Monitor for C16 {
         v
     }
     fn rule(&self) -> String {
-        "trial = (one of 25 views, or PolarizedFractalEfficiency / EhlersFisherTransform over Echo, Sma(3) or Ema(4) (48 trials per repetition: drift, and flat after a three-decade prefix, a prefix x 2^0..2^20 and - at f64 - a prefix x 2^36..2^50; reference: the C11 model restarted on the last N + 400 inputs); N; clause; value grid dyadic or tenths; scalar f64 or f32). drift: three-decade stream (values in [1,1000], non-zero steps in [1/8,100]) of 1e5 (quick) / 1e6 (thorough) values (shorter for O(N)-per-update and recursive views), plus, in both tiers, 20 trials of 14 windowed views (CTI five, CoG three times) at N in {300, 400, 520} on 1e6 values (two thirds of them on a stream that climbs from 1 to 1000 and then walks inside [990,1000] with steps of 0.001..0.017), f64 output vs exact reference at 200 checkpoints, every step around the 65 536th and 131 072nd value and each of the last min(2N, 32) steps, 1e-6 of natural scale (f32: 1e-2, 1e4 values). flat: three-decade or wide-range (x 2^0..2^20) volatile prefix then N+1..3N copies of c in {1, 1000, 1/8, 0.1, 1/3, 123.456, 7, 0}, every step whose window is flat, 1e-4 of scale (f32: 1e-4 for the views the statement names, 1e-2 for the others; a third of the prefixes - two thirds, 1000..3000 values long, for windowed views at f32 - sit at a high level with a small spread: 1000 / 250 / 12345 +- 1/16 or 1/2). Reference: exact batch oracle over the recent inputs for windowed views; the C11 reference model (SuperSmoother/Roofing: a fresh f64 instance of the code) restarted on the last S(N) inputs for recursive ones. distinct = distinct (view, N, clause, scalar, stream)".into()
+        "trial = (one of 25 views, or PolarizedFractalEfficiency / EhlersFisherTransform over Echo, Sma(3) or Ema(4) (48 trials per repetition: drift, and flat after a three-decade prefix, a prefix x 2^0..2^20 and - at f64 - a prefix x 2^36..2^50; reference: the C11 model restarted on the last N + 400 inputs); N; clause; value grid dyadic or tenths; scalar f64 or f32). drift: three-decade stream (values in [1,1000], non-zero steps in [1/8,100]) of 1e5 (quick) / 1e6 (thorough) values (shorter for O(N)-per-update and recursive views), plus, in both tiers, 20 trials of 14 windowed views (CTI five, CoG three times) at N in {300, 400, 520} on 1e6 values (two thirds of them on a stream that climbs from 1 to 1000 and then walks inside [990,1000] with steps of 0.001..0.017), f64 output vs exact reference at 200 checkpoints, every step around the 65 536th and 131 072nd value and each of the last min(2N, 32) steps, 1e-6 of natural scale (f32: 1e-2, 1e4 values). flat: three-decade or wide-range (x 2^0..2^20) volatile prefix then N+1..3N copies of c in {1, 1000, 1/8, 0.1, 1/3, 123.456, 7, 0}, every step whose window is flat, 1e-4 of scale (f32: 1e-4 for the views the statement names, 1e-2 for the others; a third of the prefixes - two thirds, 1000..3000 values long, for windowed views at f32 - sit at a high level with a small spread: 1000 / 250 / 12345 +- 1/16 or 1/2). In both tiers 10 flat trials at f32 with N in {400, 520, 800, 1024} (Sma, HLNormalizer, Roc, Rsi, MyRSI, Alma, Ema, CyberCycle x 3): three-decade prefix of 2N..4N values, then 4N..6N identical values read at every 41st step (Ema, CyberCycle: 8N..10N values held at 612..978, read from the 8N-th on). Reference: exact batch oracle over the recent inputs for windowed views; the C11 reference model (SuperSmoother/Roofing: a fresh f64 instance of the code) restarted on the last S(N) inputs for recursive ones. distinct = distinct (view, N, clause, scalar, stream)".into()
     }
     fn assumptions(&self) -> Vec<String> {
         vec![
